@@ -367,7 +367,7 @@ def rc_chunk_frames(ctx):
             for start in (0, 1, 2):
                 for j, (cs, ce) in enumerate(c07._windows(lay, False)):
                     if ctx.thorough or (j + start) % 2 == 0:
-                        specs.append((lay, sn, start, cs, ce, "MINUS" if (j // 2) % 2 else "PLUS"))
+                        specs.append((lay, sn, start, cs, ce, "MINUS" if (j // 2) % 2 else "PLUS", False, "frames"))
     ctx.r.floor("C05.RC", "chunk frame cases", len(specs), 150)
     results = pmap(_runner(ctx.repo, c07._cds_case), specs)
     results = [(n, [o for o in outs if o[0].startswith("chunk frames") or o[0] == "uninterpretable"]) for n, outs in results]
@@ -389,7 +389,8 @@ def cds_layouts(thorough):
     yield ((4, 5), (8, 17))
     yield ((4, 12), (15, 16))
     yield ((4, 10), (13, 14), (17, 25))
-    yield ((4, 9), (12, 14), (17, 24))
+    if thorough:
+        yield ((4, 9), (12, 14), (17, 24))
 
 
 def rk_interpreted(ctx):
